@@ -13,6 +13,8 @@ var vC10StoreQueries = []string{
 	"true", "s = \"x\"", "true sort by s", "true sort by i desc, s", "true sort by id desc", "true skip 1 limit 1",
 	"isEmpty(roles)", "anyOf(roles) = \"a\"", "count(reports) = 0", "boss.s = \"x\"", "tags.k = 1",
 	"isEmpty(from reports where s = \"x\")", "true sort by s skip 2", "s icontains \"x\" sort by s",
+	"true sort by i", "true sort by s desc, i", "true sort by boss", "true sort by tags.k",
+	"count(from reports where true) = 0", "isEmpty(from roles where true)", "not isEmpty(from reports where boss = null)",
 }
 
 func init() {
@@ -24,13 +26,22 @@ func init() {
 // filled and emptied again, and on entities all of whose fields are null.
 func VerifC10_QueriesOnEmptyAndNullData() {
 	q := vC10StoreQueries[verifrt.Choose("query", len(vC10StoreQueries))]
-	state := verifrt.Choose("state", 3) // 0 never written, 1 filled then emptied, 2 one entity with all fields null
+	state := verifrt.Choose("state", 4) // 0 never written, 1 filled then emptied, 2 one entity with all fields null, 3 three such entities (sorting compares null with null)
 	env := verifNewEnv(vStoreCfg{nickNullable: true})
 	defer env.close()
 	store := verifNewPersonStore()
 	if state >= 1 {
 		err := env.update(func(ctx MutateContext) error { return store.Create(ctx, &vPerson{Id: "a"}) })
 		verifrt.Assert(err == nil, "C10 setup create succeeds")
+	}
+	if state == 3 {
+		err := env.update(func(ctx MutateContext) error {
+			if err := store.Create(ctx, &vPerson{Id: "ab"}); err != nil {
+				return err
+			}
+			return store.Create(ctx, &vPerson{Id: "b"})
+		})
+		verifrt.Assert(err == nil, "C10 setup creates succeed")
 	}
 	if state == 1 {
 		err := env.update(func(ctx MutateContext) error { return store.DeleteById(ctx, "a") })
